@@ -849,6 +849,7 @@ impl NodeId {
     /// Panics if:
     ///
     /// * the given new sibling is `self`, or
+    /// * the given new sibling is an ancestor of `self`, or
     /// * the current node or the given new sibling was already [`remove`]d.
     ///
     /// To check if the node is removed or not, use [`Node::is_removed()`].
@@ -899,6 +900,8 @@ impl NodeId {
     ///
     /// * Returns [`NodeError::InsertAfterSelf`] error if the given new sibling
     ///   is `self`.
+    /// * Returns [`NodeError::InsertAfterAncestor`] error if the given new
+    ///   sibling is an ancestor of `self`.
     /// * Returns [`NodeError::Removed`] error if the given new sibling or
     ///   `self` is [`remove`]d.
     ///
@@ -918,6 +921,7 @@ impl NodeId {
     ///
     /// [`Node::is_removed()`]: struct.Node.html#method.is_removed
     /// [`NodeError::InsertAfterSelf`]: enum.NodeError.html#variant.InsertAfterSelf
+    /// [`NodeError::InsertAfterAncestor`]: enum.NodeError.html#variant.InsertAfterAncestor
     /// [`NodeError::Removed`]: enum.NodeError.html#variant.Removed
     /// [`remove`]: struct.NodeId.html#method.remove
     pub fn checked_insert_after<T>(
@@ -930,6 +934,9 @@ impl NodeId {
         }
         if arena[self].is_removed() || arena[new_sibling].is_removed() {
             return Err(NodeError::Removed);
+        }
+        if self.ancestors(arena).any(|ancestor| new_sibling == ancestor) {
+            return Err(NodeError::InsertAfterAncestor);
         }
         new_sibling.detach(arena);
         let (next_sibling, parent) = {
@@ -949,6 +956,7 @@ impl NodeId {
     /// Panics if:
     ///
     /// * the given new sibling is `self`, or
+    /// * the given new sibling is an ancestor of `self`, or
     /// * the current node or the given new sibling was already [`remove`]d.
     ///
     /// To check if the node is removed or not, use [`Node::is_removed()`].
@@ -999,6 +1007,8 @@ impl NodeId {
     ///
     /// * Returns [`NodeError::InsertBeforeSelf`] error if the given new sibling
     ///   is `self`.
+    /// * Returns [`NodeError::InsertBeforeAncestor`] error if the given new
+    ///   sibling is an ancestor of `self`.
     /// * Returns [`NodeError::Removed`] error if the given new sibling or
     ///   `self` is [`remove`]d.
     ///
@@ -1018,6 +1028,7 @@ impl NodeId {
     ///
     /// [`Node::is_removed()`]: struct.Node.html#method.is_removed
     /// [`NodeError::InsertBeforeSelf`]: enum.NodeError.html#variant.InsertBeforeSelf
+    /// [`NodeError::InsertBeforeAncestor`]: enum.NodeError.html#variant.InsertBeforeAncestor
     /// [`NodeError::Removed`]: enum.NodeError.html#variant.Removed
     /// [`remove`]: struct.NodeId.html#method.remove
     pub fn checked_insert_before<T>(
@@ -1030,6 +1041,9 @@ impl NodeId {
         }
         if arena[self].is_removed() || arena[new_sibling].is_removed() {
             return Err(NodeError::Removed);
+        }
+        if self.ancestors(arena).any(|ancestor| new_sibling == ancestor) {
+            return Err(NodeError::InsertBeforeAncestor);
         }
         new_sibling.detach(arena);
         let (previous_sibling, parent) = {
